@@ -100,7 +100,7 @@ def run(rep, tier, seed, replay=None):
 
     # ---- search: the property stated directly on the implementation (always run; larger when something no longer checks)
     big = tier == 'thorough' or rep.broken or mine
-    nor = 400000 if big else 40000
+    nor = 250000 if big else 40000
     fails, ratio, summary = [], [], {}
     if replay and 'case' in replay:
         rc, out = vh(binp, ['c19', 'show'] + replay['case'])
